@@ -51,8 +51,10 @@ CRIT = [
     "null", "None", "0", "\u007f", "/a[1]", "a\\nb", "\\u0041", "{}", "퟿", "",
 ]
 PATHS = ["/a[1]", "/a/b[2]", "/a/b/c[1]", "/a/comment()[1]", "/a/*[3]", "/ns:a/ns:b[1]", "/a/b[12]/comment()[2]", "/r/p:x[1]"]
-TAGS = ["b", "c", "{uri:x}c", "item", "{http://www.w3.org/1999/xhtml}p"]
-NAMES = ["k", "id", "{http://www.w3.org/XML/1998/namespace}id", "data-x", "{uri:x}n"]
+# legal XML names that are also JSON literals: a reader that decodes fields by their look, not by their role, changes them
+JSONISH = ["null", "true", "false", "NaN", "Infinity"]
+TAGS = ["b", "c", "{uri:x}c", "item", "{http://www.w3.org/1999/xhtml}p"] + JSONISH
+NAMES = ["k", "id", "{http://www.w3.org/XML/1998/namespace}id", "data-x", "{uri:x}n"] + JSONISH
 
 PATH_RE = re.compile(r"^(/(\*|comment\(\)|[^/\[\]]+)(\[\d+\])?)+$")
 
@@ -95,8 +97,8 @@ def rand_action(r):
     if k == 10:
         return A.InsertComment(p(), r.randint(0, 12), s())
     if k == 11:
-        return A.InsertNamespace(r.choice(["p", "ns", "xhtml"]), r.choice(["uri:x", "http://www.w3.org/1999/xhtml"]))
-    return A.DeleteNamespace(r.choice(["p", "ns"]))
+        return A.InsertNamespace(r.choice(["p", "ns", "xhtml", "null", "true"]), r.choice(["uri:x", "http://www.w3.org/1999/xhtml", "null"]))
+    return A.DeleteNamespace(r.choice(["p", "ns", "null", "false"]))
 
 
 def mutate_text(r, text):
